@@ -543,6 +543,7 @@ func (l *IPFSLog) Join(otherLog iface.IPFSLog, size int) (iface.IPFSLog, error) 
 	wg := &sync.WaitGroup{}
 	wg.Add(newItems.Len())
 	var err error
+	var errLock sync.Mutex
 
 	// TODO: use l.concurrency ?
 	for _, k := range newItems.Keys() {
@@ -551,17 +552,23 @@ func (l *IPFSLog) Join(otherLog iface.IPFSLog, size int) (iface.IPFSLog, error) 
 
 			e := newItems.UnsafeGet(k)
 			if e == nil || !e.Defined() {
+				errLock.Lock()
 				err = errmsg.ErrLogJoinFailed
+				errLock.Unlock()
 				return
 			}
 
 			if inErr := l.AccessController.CanAppend(e, l.Identity.Provider, &CanAppendContext{log: l}); inErr != nil {
+				errLock.Lock()
 				err = inErr
+				errLock.Unlock()
 				return
 			}
 
 			if inErr := e.Verify(l.Identity.Provider, l.IO()); inErr != nil {
+				errLock.Lock()
 				err = errmsg.ErrSigNotVerified.Wrap(inErr)
+				errLock.Unlock()
 				return
 			}
 		}(k)
